@@ -36,8 +36,8 @@ Proof. apply view_shape. Qed.
 (** the names of rows that are not elements or attributes are as [NamesOk] wants them: only the
     namespace part of C10 remains a hypothesis *)
 Theorem bridge_names F merged s :
-  TreeInv s -> doc_element s <> None -> doc_decl s = None -> NamesOk (xdoc_of_store F merged s).
-Proof. apply view_names_ok. Qed.
+  TreeInv s -> OrderInv s -> doc_element s <> None -> NamesOk (xdoc_of_store F merged s).
+Proof. intros T O H. apply view_names_ok; assumption. Qed.
 
 Theorem bridge_parents F merged s :
   TreeInv s -> doc_element s <> None -> doc_decl s = None -> ParentsOk (xdoc_of_store F merged s).
@@ -88,11 +88,11 @@ Qed.
 
 Theorem bridge_reachable :
   doc_element s <> None ->
-  DocInv doc /\ SpecShape doc /\ (doc_decl s = None -> ParentsOk doc /\ NamesOk doc).
+  DocInv doc /\ SpecShape doc /\ NamesOk doc /\ (doc_decl s = None -> ParentsOk doc).
 Proof.
   intros He. destruct reachable_good as [T O].
   split; [apply bridge_docinv; assumption|]. split; [apply bridge_shape; assumption|].
-  intros Hd. split; [apply bridge_parents; assumption | apply bridge_names; assumption].
+  split; [apply bridge_names; assumption|]. intros Hd. apply bridge_parents; assumption.
 Qed.
 
 (** C07 on the edited document: every node-set value is duplicate-free and in document order by
@@ -201,9 +201,8 @@ Theorem edited_path_query_refines F merged init ops k s :
     spec_query (xdoc_of_store F merged s) ns pos size (path_query p) = Some (SNodes (map Row lm)).
 Proof.
   intros Hi Hd He Hdt ns Hns p c pos size Hc Hp.
-  destruct (bridge_reachable F merged init ops k s Hi Hd He) as [Hinv [Hsh Hpn]].
-  destruct (Hpn Hdt) as [Hpar Hn].
-  exact (path_query_agrees _ Hinv Hsh Hn Hpar ns Hns p c pos size Hc Hp).
+  destruct (bridge_reachable F merged init ops k s Hi Hd He) as [Hinv [Hsh [Hn Hpar]]].
+  exact (path_query_agrees _ Hinv Hsh Hn (Hpar Hdt) ns Hns p c pos size Hc Hp).
 Qed.
 
 (** ** "as on a fresh parse": the value depends on the tree only *)
@@ -269,9 +268,9 @@ Theorem query_depends_on_tree_only F1 F2 merged init ops k s1 s2 :
     spec_query (xdoc_of_store F1 merged s1) ns 0 0 (path_query p) = Some (SNodes (map Row l)).
 Proof.
   intros Hi Hd T2 O2 He1 Hd1 He2 Hd2 Hs.
-  destruct (bridge_reachable F1 merged init ops k s1 Hi Hd He1) as [I1 [S1 P1]].
-  destruct (P1 Hd1) as [P1' N1].
+  destruct (bridge_reachable F1 merged init ops k s1 Hi Hd He1) as [I1 [S1 [N1 P1]]].
   apply same_tree_same_paths; try assumption.
+  - apply P1. exact Hd1.
   - apply bridge_docinv; assumption.
   - apply bridge_shape; assumption.
   - apply bridge_parents; assumption.
@@ -281,36 +280,33 @@ Qed.
 
 (** C05 on the edited document: for every supported expression the evaluator returns on the table
     of the edited document the value XPath 1.0 prescribes for its tree (and fails exactly when
-    XPath 1.0 says the expression is in error) *)
+    XPath 1.0 says the expression is in error); documents with a document type included *)
 Theorem edited_eval_refines_spec F merged init ops k s :
-  WGood init -> doc_at (run init ops) k = Some s ->
-  doc_element s <> None -> doc_decl s = None ->
+  WGood init -> doc_at (run init ops) k = Some s -> doc_element s <> None ->
   forall (c : ctx) (e : expr), ns_lookup (c_ns c) None = None -> supported (c_ns c) e ->
     value_abs (fst (query (xdoc_of_store F merged s) e c)) =
     spec_query (xdoc_of_store F merged s) (c_ns c) (get_position c) (get_size c) e.
 Proof.
-  intros Hi Hd He Hdt c e Hns Hsup.
-  destruct (bridge_reachable F merged init ops k s Hi Hd He) as [Hinv [Hsh Hpn]].
-  destruct (Hpn Hdt) as [Hpar Hn].
-  exact (eval_refines_spec_lemma _ Hinv Hsh Hn Hpar (c_ns c) Hns c e eq_refl Hsup).
+  intros Hi Hd He c e Hns Hsup.
+  destruct (bridge_reachable F merged init ops k s Hi Hd He) as [Hinv [Hsh [Hn _]]].
+  exact (eval_refines_spec_lemma _ Hinv Hsh Hn (c_ns c) Hns c e eq_refl Hsup).
 Qed.
 
-(** two tables satisfying the four hypotheses that show the same tree give the same value -- the
+(** two tables satisfying the hypotheses of C05 that show the same tree give the same value -- the
     same boolean, number, string, the same rows in the same order, or both an error -- for every
     supported expression *)
 Theorem same_tree_same_value d1 d2 :
-  DocInv d1 -> SpecShape d1 -> ParentsOk d1 -> DocInv d2 -> SpecShape d2 -> ParentsOk d2 ->
-  NamesOk d1 -> same_tree d1 d2 ->
+  DocInv d1 -> SpecShape d1 -> DocInv d2 -> SpecShape d2 -> NamesOk d1 -> same_tree d1 d2 ->
   forall (c1 c2 : ctx) (e : expr),
     c_ns c1 = c_ns c2 -> get_position c1 = get_position c2 -> get_size c1 = get_size c2 ->
     ns_lookup (c_ns c1) None = None -> supported (c_ns c1) e ->
     value_abs (fst (query d1 e c1)) = value_abs (fst (query d2 e c2)).
 Proof.
-  intros I1 S1 P1 I2 S2 P2 N1 Hs c1 c2 e Hc Hp Hz Hns Hsup.
+  intros I1 S1 I2 S2 N1 Hs c1 c2 e Hc Hp Hz Hns Hsup.
   pose proof (names_ok_same_tree d1 d2 Hs N1) as N2.
-  rewrite (eval_refines_spec_lemma d1 I1 S1 N1 P1 (c_ns c1) Hns c1 e eq_refl Hsup).
+  rewrite (eval_refines_spec_lemma d1 I1 S1 N1 (c_ns c1) Hns c1 e eq_refl Hsup).
   rewrite Hc in Hns, Hsup.
-  rewrite (eval_refines_spec_lemma d2 I2 S2 N2 P2 (c_ns c2) Hns c2 e eq_refl Hsup).
+  rewrite (eval_refines_spec_lemma d2 I2 S2 N2 (c_ns c2) Hns c2 e eq_refl Hsup).
   rewrite Hc, Hp, Hz. apply spec_query_tree_only. exact Hs.
 Qed.
 
@@ -318,8 +314,7 @@ Qed.
     world and any store [s2] satisfying the invariants whose table shows the same tree *)
 Theorem query_depends_on_tree_only_all F1 F2 merged init ops k s1 s2 :
   WGood init -> doc_at (run init ops) k = Some s1 ->
-  TreeInv s2 -> OrderInv s2 ->
-  doc_element s1 <> None -> doc_decl s1 = None -> doc_element s2 <> None -> doc_decl s2 = None ->
+  TreeInv s2 -> OrderInv s2 -> doc_element s1 <> None -> doc_element s2 <> None ->
   same_tree (xdoc_of_store F1 merged s1) (xdoc_of_store F2 merged s2) ->
   forall (c1 c2 : ctx) (e : expr),
     c_ns c1 = c_ns c2 -> get_position c1 = get_position c2 -> get_size c1 = get_size c2 ->
@@ -329,12 +324,10 @@ Theorem query_depends_on_tree_only_all F1 F2 merged init ops k s1 s2 :
     value_abs (fst (query (xdoc_of_store F1 merged s1) e c1)) =
     spec_query (xdoc_of_store F1 merged s1) (c_ns c1) (get_position c1) (get_size c1) e.
 Proof.
-  intros Hi Hd T2 O2 He1 Hd1 He2 Hd2 Hs c1 c2 e Hc Hp Hz Hns Hsup.
-  destruct (bridge_reachable F1 merged init ops k s1 Hi Hd He1) as [I1 [S1 P1]].
-  destruct (P1 Hd1) as [P1' N1]. split.
+  intros Hi Hd T2 O2 He1 He2 Hs c1 c2 e Hc Hp Hz Hns Hsup.
+  destruct (bridge_reachable F1 merged init ops k s1 Hi Hd He1) as [I1 [S1 [N1 _]]]. split.
   - apply same_tree_same_value; try assumption.
     + apply bridge_docinv; assumption.
     + apply bridge_shape; assumption.
-    + apply bridge_parents; assumption.
-  - exact (eval_refines_spec_lemma _ I1 S1 N1 P1' (c_ns c1) Hns c1 e eq_refl Hsup).
+  - exact (eval_refines_spec_lemma _ I1 S1 N1 (c_ns c1) Hns c1 e eq_refl Hsup).
 Qed.
